@@ -328,7 +328,9 @@ def _replay_table(ctx, I, rec, idx, rnd, quick):
         got = _flat(inv)
         ctx.count(("t", "".join(text), tuple(sc[:3]), len(sc)), nontrivial)
         ctx.traces_validated += 1
-        if got != exp:
+        # (the order of the nested mapping is the model's for the model's own domains: under a renaming that moves py:func
+        # to another DOMAIN the entries are compared as a set, the order clause stays with the unrenamed third)
+        if (got != exp) if idx % 3 == 0 else (sorted(got, key=repr) != sorted(exp, key=repr)):
             dup_mod = [k for k in set(keys) if k[:2] == ("py", "module") and keys.count(k) > 1]
             ctx.violation("loaded table differs from the specified one (= Sphinx's) for these bytes",
                           {**case, "got": got}, finding="C18-pymodule-first" if dup_mod else None)
